@@ -106,6 +106,7 @@ CHECKS = {
             E("TestC06KeySizes"),
             E("TestC06OddDeviceKeys"),
             E("TestC06RootsReplaced"),
+            E("TestC06LabelGrid"),
             R("TestC06Sequence", 300, 2000, ts=4),
             R("TestC06Concurrent", 30, 300, qs=2, ts=8),
             R("TestC06RealDER", 200, 800, ts=4),
@@ -125,6 +126,7 @@ CHECKS = {
             R("TestC07Many", 25, 250, ts=4),
             R("TestC07Lapse", 6, 60, qs=8, ts=16, thorough_extra={"timeout": 1200}),
             R("TestC07Open", 6, 60, qs=8, ts=16, thorough_extra={"timeout": 1200}),
+            E("TestC07AddedLater", thorough={"shards": 1, "timeout": 600}),
             R("TestC07HeldSigner", 4, 30, qs=6, ts=16, quick_extra={"timeout": 300}),
             E("TestC07SlowLapse", quick={"shards": 1, "timeout": 300}, thorough={"shards": 1, "timeout": 600}),
         ],
@@ -150,7 +152,7 @@ CHECKS = {
         },
         "assumptions": ["golang.org/x/crypto keyring is the underlying agent"],
         "subchecks": [R("TestC09NoUpstream", 300, 1500, qs=2), R("TestC09Many", 25, 250, ts=4), R("TestC09AddedMeanwhile", 300, 3000, ts=8),
-                      R("TestC09Faults", 300, 3000, qs=2, ts=8), R("TestC09Locked", 300, 3000, qs=2, ts=8), E("TestC09RefusedRemoveAll")],
+                      R("TestC09Faults", 300, 3000, qs=2, ts=8), R("TestC09Locked", 300, 3000, qs=2, ts=8), E("TestC09RefusedRemoveAll"), E("TestC09ConstructFaults")],
     },
     "C10": {
         "pkg": "c10", "level": "exploration",
@@ -184,6 +186,7 @@ CHECKS = {
             E("TestC11RefusedHeldSigner", quick={"shards": 1, "timeout": 600}, thorough={"shards": 1, "timeout": 900}),
             E("TestC11RefusedLock", quick={"shards": 1, "timeout": 600}, thorough={"shards": 1, "timeout": 900}),
             E("TestC11Pipelined", quick={"shards": 1, "timeout": 600}, thorough={"shards": 1, "timeout": 900}),
+            E("TestC11ListingOwnership", quick={"shards": 1, "timeout": 600}, thorough={"shards": 1, "timeout": 900}),
             R("TestC11Concurrent", 40, 250, qs=2, quick_extra={"timeout": 600}, thorough_extra={"timeout": 1500}),
             R("TestC11Sequential", 150, 1500, qs=2, ts=8, quick_extra={"timeout": 600}, thorough_extra={"timeout": 1500}),
         ],
@@ -340,7 +343,7 @@ CHECKS = {
             R("TestC20Wait", 200, 2000, qs=2, quick_extra={"timeout": 300}),
             R("TestC20Blackbox", 12, 120, qs=4, ts=8, quick_extra={"timeout": 300}),
             R("TestC20Concurrent", 8, 60, qs=4, ts=8, quick_extra={"timeout": 300}),
-            E("TestC20Construct"), E("TestC20UpstreamBroken"), E("TestC20BusyUpstream", quick={"shards": 1, "timeout": 300}, thorough={"shards": 1, "timeout": 600}),
+            E("TestC20Construct"), E("TestC20UpstreamBroken"), E("TestC20Rewait"), E("TestC20BusyUpstream", quick={"shards": 1, "timeout": 300}, thorough={"shards": 1, "timeout": 600}),
         ],
     },
 }
